@@ -333,8 +333,25 @@ let () =
        done with End_of_file -> ())
   | _ -> ()
 
+(* ---------- K5: driver table ---------- *)
+let run_k5 () =
+  let b x = if x then 1 else 0 in
+  List.iter (fun ((f, w), v) ->
+      let (es, ex) = run f w v in
+      pr "%d %d %d %d %d %d | %d %d %d %d | %s | %s | %s\n"
+        (b f.f_check) (b f.f_format) (b f.f_graph) (b f.f_short) (int_of_nat f.f_verbose) (b f.f_outdir_other)
+        (b w.w_lexer) (b w.w_parser) (b w.w_out_writable) (b w.w_formatted)
+        (match v with VUnreadable -> "unreadable" | VSyntaxError -> "syntax" | VSemanticError -> "semantic"
+                      | VWarnings -> "warnings" | VClean -> "clean")
+        (String.concat "," (List.map (function
+             | PGrammar -> "grammar" | PGenerated -> "generated" | PLexer -> "lexer"
+             | PParser -> "parser" | PGraph -> "graph") es))
+        (match ex with ExitOk -> "0" | ExitFail -> "1" | ExitUsage -> "2")) all_rows;
+  flush_out ()
+
 let () =
   match Array.to_list Sys.argv with
+  | [_; "k5"] -> run_k5 ()
   | [_; "k2"] -> ()
   | [_; "k1"] ->
     (try while true do
